@@ -85,6 +85,16 @@ def rule_I_INDEX(ctx, ev, ctors):
                     some_alts.append((q, n["then"]))
             except hir.Unrecognised:
                 pass
+    # ... or as `let Some(index) = .. else { return err };` followed by the rest of the function
+    for n in hir.walk(pti["body"]):
+        if n.get("k") == "Block":
+            for si, st_ in enumerate(n["stmts"]):
+                if st_.get("k") == "Let" and st_.get("els") and st_.get("init") is not None:
+                    try:
+                        if hir.pat_variants(st_["pat"]) == {"Some"}:
+                            some_alts.append((st_["pat"], {"k": "Block", "stmts": n["stmts"][si + 1:], "expr": n.get("expr")}))
+                    except hir.Unrecognised:
+                        pass
     ok = False
     if len(some_alts) == 1:
         pat, body_ = some_alts[0]
